@@ -18,6 +18,7 @@ package c08
 import (
 	"fmt"
 	"os"
+	"runtime/debug"
 	"strings"
 
 	"verif/harness/core"
@@ -32,6 +33,11 @@ type caseRec struct {
 	Expected []string `json:"expected,omitempty"`
 	Observed []string `json:"observed,omitempty"`
 	Fault    string   `json:"fault,omitempty"`
+}
+
+func init() {
+	// a fresh Runtime per instance makes the default GC pacing (4 MB heap minimum) collect every few instances
+	debug.SetGCPercent(1600)
 }
 
 func Check() *core.Check {
@@ -163,13 +169,23 @@ func checkInstance(c *core.Ctx, in *instance, st *core.Stats) (*core.Result, *en
 	case er.Final == "":
 		return fail("model", fmt.Sprintf("API returned %s error %v, the reference model says %q", er.ErrKind, er.Out.Err, ref.Final)), er, &ref
 	}
-	if d := diffLogs(ref.Log, er.Log, ref.Final, er.Final); d != "" {
+	expFinal := ref.Final
+	if in.mode == ctlref.ModeGlobal && in.v.What == "exit" && (in.v.Exit == ctlref.Break || in.v.Exit == ctlref.Continue) &&
+		strings.HasPrefix(ref.Final, "RET ") && strings.HasPrefix(er.Final, "RET ") {
+		// Known findings C08-completion-value-*: the compiler's static completion-value bookkeeping is wrong for break /
+		// continue nested in blocks, in finally blocks and in do-while bodies.  The script-level NORMAL completion value of
+		// instances whose placed exit is a break / continue is therefore not compared (event log, thrown values and
+		// function-level return values still are).  See known-findings.d/C08.json.
+		st.Inc("script_completion_value_not_compared")
+		expFinal = er.Final
+	}
+	if d := diffLogs(ref.Log, er.Log, expFinal, er.Final); d != "" {
 		return fail("model", d), er, &ref
 	}
 	if er.Idle != "" {
 		return fail("vm-not-idle", "VM registers not idle after the outermost return: "+er.Idle), er, &ref
 	}
-	if d := traceSpec(in.prog, er.Log, er.Final, false); d != "" {
+	if d := traceSpecMode(in.prog, er.Log, er.Final, false, in.mode); d != "" {
 		return fail("trace", d), er, &ref
 	}
 	return nil, er, &ref
@@ -193,10 +209,22 @@ func run(c *core.Ctx) core.Result {
 	st.Count("statement_positions_enumerated", int64(len(base.Positions())))
 	res := core.Result{Verdict: core.Held, Key: base.Body(ctlref.ModeFunction)}
 	var faultCands []*instance
-	for _, v := range vs {
+	for vi, v := range vs {
 		prog, exitID := ctlref.Apply(base, v)
+		// the reference run tells whether the modification is reachable at all; unreachable placements (dead code after
+		// an unconditional exit, unselected switch clauses, …) are still compiled and run by the engine for 1 in 6
+		refReached := true
+		if v.What == "exit" {
+			refReached = refReaches(prog, exitID)
+			if !refReached {
+				st.Inc("unreachable_placements")
+				if (vi+c.Index)%6 != 0 {
+					continue
+				}
+			}
+		}
 		for mode := 0; mode < 2; mode++ {
-			if mode == ctlref.ModeGlobal && prog.HasReturn() {
+			if mode == ctlref.ModeGlobal && (prog.HasReturn() || !(v.What == "base" || (vi+c.Index)%3 == 0)) {
 				continue
 			}
 			in := &instance{prog: prog, v: v, exitID: exitID, mode: mode, skel: skel}
@@ -206,6 +234,7 @@ func run(c *core.Ctx) core.Result {
 				continue
 			}
 			st.Inc("instances")
+			st.Inc("instances:" + modeNames[mode])
 			if c.Replay && os.Getenv("C08_DUMP") != "" && (v.What == "base" || os.Getenv("C08_DUMP") == "all") {
 				fmt.Printf("=== %s / %s / %s ===\n%s--- log: %s\n--- final: %s (steps %d)\n", skel, v.String(), modeNames[mode], prog.Body(mode), strings.Join(er.Log, " | "), er.Final, er.Steps1-er.Steps0)
 			}
@@ -229,6 +258,17 @@ func run(c *core.Ctx) core.Result {
 		st.Sample(map[string]any{"skeleton": skel, "variants": len(vs), "js": core.Trunc(base.Body(0), 1500)})
 	}
 	return res
+}
+
+func refReaches(p *ctlref.Program, exitID int) bool {
+	ref := ctlref.Run(p, ctlref.ModeFunction)
+	pat := fmt.Sprintf(" %d @", exitID)
+	for _, e := range ref.Log {
+		if e[0] == 'X' && strings.Contains(e, pat) {
+			return true
+		}
+	}
+	return false
 }
 
 func shapeOf(p *ctlref.Program) string {
